@@ -107,3 +107,94 @@ Theorem C01_regenerated_collation_search : forall fuel t keyS colKey, xtwf t -> 
   g_collation_search fuel (Some t) keyS colKey = gres_of_sres (Tree.search fuel (tabs t) keyS colKey 0).
 Proof. exact gen_collation_search_model. Qed.
 Print Assumptions C01_regenerated_collation_search.
+
+(* the regenerated tie of the MUTATING methods: Delete and Insert of trees.go / collation.go, translated statement by
+   statement from the Go AST on every run into heap-passing functions (Gen/MutGen.v, go/cmd/srcfacts/translate_mut.go;
+   vocabulary Model/GoHeap.v: explicit addresses, *nodeRef as slots, writes through pointers in source order), SIMULATE
+   the pool-aware model Model/PoolTree.v on every heap that holds the model's raw tree (repr_root: every node at its own
+   address, footprints of different children disjoint): same output, same t.size, same pool, and the resulting heap holds
+   the model's resulting tree; no panic (Delete), panic exactly where the model reports one (Insert), MFuel exactly where
+   the model reports OFuel *)
+From GoArt Require Import Model.Pool Proofs.PoolFacts Model.GoHeap Gen.MutGen Proofs.TranslateMutFacts.
+Theorem C01_regenerated_alpha_delete : forall h root ot F size keyS os pm,
+  repr_root h root ot F -> zero_pool pm -> isbytes (keyS ++ [0]) = true -> match ot with Some t => xfit t | None => True end ->
+  let m := xdo_delete (mkXstate ot size) (keyS ++ [0]) (keyS ++ [0]) os pm in
+  match g_alpha_delete (key_fuel (keyS ++ [0])) h root size keyS os (map_pool pm) with
+  | MDone h' root' size' os' p' ret =>
+      snd (fst m) = OBool ret /\ size' = xsize (fst (fst m)) /\ p' = map_pool (snd m) /\ zero_pool (snd m) /\
+      next h' = next h /\
+      exists F', repr_root h' root' (xroot (fst (fst m))) F' /\ (forall x, F' x -> F x) /\
+                 (forall x, ~ F x -> load h' x = load h x)
+  | MPanic => False
+  | MFuel => snd (fst m) = OFuel
+  end.
+Proof. exact gen_alpha_delete_sim. Qed.
+Print Assumptions C01_regenerated_alpha_delete.
+Theorem C01_regenerated_collation_delete : forall h root ot F size keyS colKey os pm,
+  repr_root h root ot F -> zero_pool pm -> isbytes colKey = true -> match ot with Some t => xfit t | None => True end ->
+  let m := xdo_delete (mkXstate ot size) keyS colKey os pm in
+  match g_collation_delete (key_fuel colKey) h root size keyS colKey os (map_pool pm) with
+  | MDone h' root' size' os' p' ret =>
+      snd (fst m) = OBool ret /\ size' = xsize (fst (fst m)) /\ p' = map_pool (snd m) /\ zero_pool (snd m) /\
+      next h' = next h /\
+      exists F', repr_root h' root' (xroot (fst (fst m))) F' /\ (forall x, F' x -> F x) /\
+                 (forall x, ~ F x -> load h' x = load h x)
+  | MPanic => False
+  | MFuel => snd (fst m) = OFuel
+  end.
+Proof. exact gen_collation_delete_sim. Qed.
+Print Assumptions C01_regenerated_collation_delete.
+Theorem C01_regenerated_alpha_insert : forall h root ot F size keyS val os pm,
+  repr_root h root ot F -> hwf h -> zero_pool pm -> isbytes (keyS ++ [0]) = true ->
+  N.of_nat (length (keyS ++ [0])) < M32 -> N.of_nat (length (keyS ++ [0])) < M32 ->
+  match ot with Some t => WF 0 (tabs t) /\ xfit32 t | None => True end ->
+  let m := xdo_insert (mkXstate ot size) (keyS ++ [0]) (keyS ++ [0]) val os pm in
+  match g_alpha_insert (key_fuel (keyS ++ [0])) h root size keyS val os (map_pool pm) with
+  | MDone h' root' size' os' p' _ =>
+      snd (fst m) = OUnit /\ size' = xsize (fst (fst m)) /\ p' = map_pool (snd m) /\ zero_pool (snd m) /\ hwf h' /\
+      exists F', repr_root h' root' (xroot (fst (fst m))) F' /\ (forall x, F' x -> F x \/ (next h <= x)%nat) /\
+                 (forall x, (x < next h)%nat -> ~ F x -> load h' x = load h x)
+  | MPanic => snd (fst m) = OPanic
+  | MFuel => snd (fst m) = OFuel
+  end.
+Proof. exact gen_alpha_insert_sim. Qed.
+Print Assumptions C01_regenerated_alpha_insert.
+Theorem C01_regenerated_collation_insert : forall h root ot F size keyS colKey val os pm,
+  repr_root h root ot F -> hwf h -> zero_pool pm -> isbytes colKey = true ->
+  N.of_nat (length keyS) < M32 -> N.of_nat (length colKey) < M32 ->
+  match ot with Some t => WF 0 (tabs t) /\ xfit32 t | None => True end ->
+  let m := xdo_insert (mkXstate ot size) keyS colKey val os pm in
+  match g_collation_insert (key_fuel colKey) h root size keyS colKey val os (map_pool pm) with
+  | MDone h' root' size' os' p' _ =>
+      snd (fst m) = OUnit /\ size' = xsize (fst (fst m)) /\ p' = map_pool (snd m) /\ zero_pool (snd m) /\ hwf h' /\
+      exists F', repr_root h' root' (xroot (fst (fst m))) F' /\ (forall x, F' x -> F x \/ (next h <= x)%nat) /\
+                 (forall x, (x < next h)%nat -> ~ F x -> load h' x = load h x)
+  | MPanic => snd (fst m) = OPanic
+  | MFuel => snd (fst m) = OFuel
+  end.
+Proof. exact gen_collation_insert_sim. Qed.
+Print Assumptions C01_regenerated_collation_insert.
+(* and by computation on whole histories (every path of both methods, every growth and shrink threshold, pool reuse) *)
+Theorem C01_regenerated_insert_examples :
+  g_run KAlpha g_init ex_alpha = x_run KAlpha xinit [] ex_alpha /\
+  g_run KAlpha g_init ex_wide = x_run KAlpha xinit [] ex_wide /\
+  g_run KCollation g_init ex_collation = x_run KCollation xinit [] ex_collation.
+Proof. exact (conj ex_alpha_cosim (conj ex_wide_cosim ex_collation_cosim)). Qed.
+Print Assumptions C01_regenerated_insert_examples.
+
+(* the regenerated code END TO END (Proofs/TranslateRunFacts.v): a driver that executes Insert / Search / Delete calls on
+   the byte-string tree by calling the regenerated g_alpha_insert / g_alpha_delete (heap-passing, Gen/MutGen.v) and
+   g_alpha_search (Gen/TreeGen.v, on the tree the heap holds), from the empty heap and the empty pool, with ANY pool
+   answers, gives on every history_ok history (keys shorter than 2^32 bytes) the outputs of Model/Api.run, i.e. of the
+   reference map; and the uint32 hypotheses of the per-call theorems hold in every state such a history reaches *)
+From GoArt Require Import Spec.Ideal Proofs.TranslateRunFacts.
+Theorem C01_regenerated_run_refines : forall evs,
+  Forall alpha_op (map fst evs) -> history_ok KAlpha (map fst evs) = true -> short_keys KAlpha (map fst evs) ->
+  g_alpha_run evs g_init = snd (Api.run KAlpha Api.init (map fst evs)) /\
+  g_alpha_run evs g_init = snd (ideal_run KAlpha [] (map fst evs)).
+Proof. intros evs H1 H2 H3. split; [exact (gen_alpha_run_refines evs H1 H2 H3)|exact (gen_alpha_run_ideal evs H1 H2 H3)]. Qed.
+Print Assumptions C01_regenerated_run_refines.
+Theorem C01_regenerated_fit_reachable : forall k ops, history_ok k ops = true -> short_keys k ops ->
+  forall t, xroot (fst (xalone k xinit ops)) = Some t -> xfit t /\ xfit32 t /\ short_leaves (tabs t).
+Proof. exact fit_reachable. Qed.
+Print Assumptions C01_regenerated_fit_reachable.
